@@ -219,7 +219,7 @@ def k3(ctx):
     helper_ids = set(C.leader_helpers(crate))
     for site in C.leader_add_sites(crate):
         b, lead = mir.accessor_view(crate, site["body"]), site["leader"]
-        aps = [lead.var_names.get(i) for i in range(1, lead.argc + 1) if lead.local_ty(i) == "types::AppliedId"]
+        aps = [lead.var_names.get(i) for i in range(1, lead.argc + 1) if lead.local_ty(i).lstrip("&").strip() == "types::AppliedId"]
         if len(aps) != 2:
             raise mir.AnchorMissing("leader union's two invocation parameters", str(aps))
         inv = {v: k for k, v in site["pmap"].items()}
@@ -478,3 +478,34 @@ def k7(ctx):
 
 
 RULES.append(k7)
+
+
+@rule("K8", cfgs="explanations", doc="the key under which the proof registry de-duplicates equations is an injective renaming: every slot is numbered by the size of the map being filled")
+def k8(ctx):
+    crate = ctx.lib()
+    n = 0
+    for b in crate.fns():
+        if "/explain/" not in (b.file or "") or b.auto_derived:
+            continue
+        for sub in b.all_bodies():
+            for c in sub.calls:
+                if sub.blocks[c.bb]["cleanup"] or not (c.callee and c.callee.name == "insert" and "SlotMap" in (c.callee.impl_self or "") and len(c.args) == 3):
+                    continue
+                m0 = strip_role(sub.role_of_operand(c.args[0]))
+                sv = strip_role(sub.role_of_operand(c.args[2]))
+                if not (isinstance(m0, tuple) and m0[0] == "call" and m0[1] in ("new", "default")):
+                    continue
+                if not (isinstance(sv, tuple) and sv[0] == "call" and sv[1] in ("numeric", "named")):
+                    continue
+                n += 1
+                lens = [x for x in role_walk(sv) if isinstance(x, tuple) and x[0] == "call" and x[1] == "len"]
+                own_len = sv[1] == "numeric" and bool(lens) and all(x[3] and strip_role(x[3][0]) == m0 for x in lens) and not any(isinstance(x, tuple) and x[0] in ("phi", "bin") for x in role_walk(sv))
+                ctx.check(own_len, "key-renaming-injective:" + C.fkey(b), "%s numbers each slot by the current size of the renaming it is building" % C.short(b.id),
+                          "%s numbers a slot with %s instead of the size of the renaming it is building: two different slots can get the same number, so different equations share one registry key and the registry hands out the stored proof of the one for the other (which equations collide depends on how the slot names sort)" % (C.short(b.id), role_str(sv)[:60]),
+                          where_of(sub, c.bb))
+    ctx.floor("slot numberings in the explanation code", n, 2)
+    from . import c03
+    c03.h10(ctx)
+
+
+RULES.append(k8)
